@@ -169,7 +169,7 @@ class DebuggerGates(Scenario):
         if style == "bruteforce":
             k = rng.randrange(8, 15 if tier == "quick" else 41)
             for _ in range(k):
-                steps.append(["req", {"kind": "pinauth", "secret": "right", "host": rng.choice(TRUSTED_IDX), "cookie": rng.choice(["absent", "absent", "absent", "expired", "wrong_hash", "jar"]), "frame": "known", "pin": rng.choice(["wrong", "wrong", "wrong", "right"])}])
+                steps.append(["req", {"kind": "pinauth", "secret": "right", "host": rng.choice(TRUSTED_IDX), "cookie": rng.choice(["absent", "absent", "absent", "expired", "wrong_hash", "jar"]), "frame": "known", "pin": rng.choice(["wrong", "wrong", "wrong", "wrong", "right", "absent"])}])
                 if rng.random() < 0.1:
                     steps.append(["clock", rng.choice([60, 3600, PIN_TIME + 1, -30])])
                 if rng.random() < 0.05:
@@ -290,6 +290,8 @@ class DebuggerGates(Scenario):
                 q = [("__debugger__", "yes"), ("cmd", "1+1"), ("frm", str(0 if kind == "console_eval" else frm))]
             elif kind == "pinauth":
                 q = [("__debugger__", "yes"), ("cmd", "pinauth"), ("pin", pin), ("frm", str(frm))]
+                if spec.get("pin") == "absent":
+                    q = [x for x in q if x[0] != "pin"]  # (only sent while locked out, see below)
             elif kind == "printpin":
                 q = [("__debugger__", "yes"), ("cmd", "printpin"), ("frm", str(frm))]
             elif kind == "resource":
@@ -444,6 +446,8 @@ class DebuggerGates(Scenario):
                     continue  # either verdict is acceptable for this host: the counter would be unknowable afterwards
                 if not pin_on and spec.get("kind") == "pinauth":
                     continue  # PIN authentication with the PIN switched off is outside the statement (observation O2 in DESIGN.md)
+                if spec.get("kind") == "pinauth" and spec.get("pin") == "absent" and not (st["failed"] > 10 and spec.get("cookie", "absent") == "absent"):
+                    continue  # a pinauth request without its pin parameter is only defined once the attempts are exhausted
                 cval = cookie_value(spec.get("cookie", "absent"))
                 trust = model_trust(cval)
                 if spec.get("cookie") == "jar" and cval is not None and pin_on and trust is not None:
@@ -580,7 +584,7 @@ class DebuggerGates(Scenario):
 # host validation (a pure function: workload - it rides along because the gates call it)
 
 LABELS = ["localhost", "example", "com", "evil", "a", "sub", "xn--nxasmq6b", "b\xfccher", "", "a" * 64, "127", "0", "1", "LOCALHOST", "exa mple", "-x", "x_y"]
-TRUSTED_LISTS = [[".localhost", "127.0.0.1"], [".a.test", "b.test"], ["b.test", ".a.test"], ["example.com"], [".example.com"], ["example.com:8080"], [".com"], ["b\xfccher.example"], ["localhost"], [], ["127.0.0.1", "[::1]"], [".a." + "b" * 70]]
+TRUSTED_LISTS = [["", "example.com"], ["http://example.com", ".a.test"], [" b.test", "b.test"], ["*", ".example.com"], [".localhost", "127.0.0.1"], [".a.test", "b.test"], ["b.test", ".a.test"], ["example.com"], [".example.com"], ["example.com:8080"], [".com"], ["b\xfccher.example"], ["localhost"], [], ["127.0.0.1", "[::1]"], [".a." + "b" * 70]]
 
 
 class HostValidation(Scenario):
@@ -716,7 +720,7 @@ class HostValidation(Scenario):
 
     def must_admit(self, host: str, trusted: list[str]) -> bool:
         """Exactly a listed name, spelled the same (no port, ASCII lower case): refusing it would make the list useless."""
-        return bool(host) and host.isascii() and host == host.lower() and ":" not in host and all(0 < len(p) < 64 for p in host.split(".")) and any(host == (r[1:] if r.startswith(".") else r) for r in trusted)
+        return bool(host) and self.norm(host) is not None and host.isascii() and host == host.lower() and ":" not in host and all(0 < len(p) < 64 for p in host.split(".")) and any(host == (r[1:] if r.startswith(".") else r) for r in trusted)
 
 
 SCENARIOS = [DebuggerGates(), HostValidation()]
